@@ -32,6 +32,7 @@ pub fn replay(v: &Value) -> Result<Option<String>, String> {
                 skip_not_content: v["skip_not_content"].as_bool().unwrap_or(true),
                 lazy: v["lazy"].as_bool().unwrap_or(false),
                 pair_mode,
+                clone_mode: v["clone_mode"].as_bool().unwrap_or(false),
             };
             let progress = |_: usize| {};
             let cx = ShardCtx { shard: 0, nshards: 1, known: Sw::NONE, skip: vec![], progress: &progress };
